@@ -34,7 +34,13 @@ func v12GenCfg(rt *rapid.T) *v12Cfg {
 	c.profile = rapid.SampledFrom(v12Profiles).Draw(rt, "profile")
 	c.capBps = int64(v12LogUniform(rt, 1e5, 1e9, "capacity"))
 	c.rtt = int64(v12LogUniform(rt, 1e6, 3e8, "rtt"))
-	lowBDP := rapid.IntRange(0, 3).Draw(rt, "lowBDP") == 0
+	flavour := rapid.IntRange(0, 7).Draw(rt, "flavour")
+	lowBDP := flavour <= 1
+	fastIdle := flavour == 2 // long idle periods on a fast path: pacing bandwidth x idle time beyond 2^63
+	if fastIdle {
+		c.capBps = int64(v12LogUniform(rt, 2e6, 1e9, "capacityFast"))
+		c.rtt = int64(v12LogUniform(rt, 1e6, 2e7, "rttFast"))
+	}
 	if lowBDP { // the window lives near its 4-datagram floor: BDP of 1..10 packets
 		c.capBps = int64(v12LogUniform(rt, 1e5, 3e6, "capacityLow"))
 		c.rtt = int64(float64(rapid.IntRange(1, 10).Draw(rt, "bdpPackets")) * 1300 / float64(c.capBps) * 1e9)
@@ -97,6 +103,13 @@ func v12GenCfg(rt *rapid.T) *v12Cfg {
 		}
 	}
 	c.maxPkts = rapid.SampledFrom([]int64{20000, 20000, 20000, 40, 64, 200, 1000}).Draw(rt, "maxWindowPackets")
+	if fastIdle {
+		c.maxPkts = 20000
+		c.blackouts = nil
+		if c.lossInv > 0 && c.lossInv < 1000 {
+			c.lossInv = 1000
+		}
+	}
 	c.prePackets = rapid.SampledFrom([]int{0, 0, 1, 3, 10, 40}).Draw(rt, "prePackets")
 	c.installAt = int64(float64(c.rtt) * rapid.SampledFrom([]float64{0, 0.5, 1, 1.5, 3}).Draw(rt, "installAfterRTTs"))
 	c.cold = c.prePackets == 0 && rapid.IntRange(0, 5).Draw(rt, "cold") == 0
@@ -126,6 +139,27 @@ func v12GenCfg(rt *rapid.T) *v12Cfg {
 		c.phases = append(c.phases, ph)
 	}
 	c.phases[len(c.phases)-1].dur = 1 << 50
+	if fastIdle {
+		c.phases = nil
+		total := 0
+		for n := rapid.IntRange(1, 2).Draw(rt, "idleRounds"); n > 0; n-- {
+			pk := rapid.IntRange(100, budget/4).Draw(rt, "burstPackets")
+			total += pk
+			c.phases = append(c.phases, v12Phase{mode: 3, chunk: int64(pk) * 1300, every: 1 << 55,
+				dur: max(60*c.rtt, int64(float64(pk)*1300/float64(c.capBps)*4e9), 2e8)})
+			switch rapid.IntRange(0, 3).Draw(rt, "idleKind") {
+			case 0: // 10 s .. 10 min
+				c.phases = append(c.phases, v12Phase{mode: 1, dur: int64(v12LogUniform(rt, 1e10, 6e11, "idleSeconds"))})
+			case 1: // hours
+				c.phases = append(c.phases, v12Phase{mode: 1, dur: rapid.SampledFrom([]int64{3600e9, 36000e9, 144000e9, 360000e9}).Draw(rt, "idleHours")})
+			default: // chosen from the pacer's actual rate: bandwidth x idle = k/1000 x 2^63
+				c.phases = append(c.phases, v12Phase{mode: 5, chunk: rapid.SampledFrom([]int64{600, 990, 1010, 1050, 1500, 1950, 1999, 2500, 3300, 17400}).Draw(rt, "overflowPermille")})
+			}
+		}
+		c.phases = append(c.phases, v12Phase{mode: 0, dur: 1 << 50})
+		c.maxPackets = total + rapid.IntRange(300, 1500).Draw(rt, "tailPackets")
+		c.dur = 1 << 58
+	}
 	return c
 }
 
@@ -166,6 +200,11 @@ func TestVerifC12_Traces(t *testing.T) {
 		add(s.pacerChecks > 0, "pacerWaitChecked")
 		add(s.pacerSkipped > 0, "pacerCheckSkipped(>62bit)")
 		add(s.sentCount >= cfg.maxPackets, "endedByPacketBudget")
+		add(s.longIdleEnded, "longIdle(>=10s)")
+		add(s.pacerOverflow > 0, "noBudgetBeyond62bit(progressRule)")
+		add(s.beyond63 > 0, "pacerConsultedBeyond2^63")
+		add(s.overflowIdles > 0, "idleChosenFromPacerRate")
+		add(s.longIdleEnded && s.sentCount > s.sentAtIdleEnd, "resumedAfterLongIdle")
 		add(s.maxAckOnlyRun >= 10, "ackOnlyRun>=10")
 		add(s.maxAckOnlyRun >= 100, "ackOnlyRun>=100")
 		if s.gapExcluded > 0 {
